@@ -250,6 +250,7 @@ carquet_status_t carquet_batch_reader_next(
 
     /* Check if we need to move to next row group */
     if (batch_reader->current_row_group < 0 ||
+        batch_reader->col_readers[0] == NULL ||
         !carquet_column_has_next(batch_reader->col_readers[0])) {
 
         batch_reader->current_row_group++;
@@ -261,6 +262,9 @@ carquet_status_t carquet_batch_reader_next(
         carquet_status_t status = open_row_group_readers(
             batch_reader, batch_reader->current_row_group, &err);
         if (status != CARQUET_OK) {
+            /* No column reader is open now: step back so that a repeated call opens this
+             * row group again instead of dereferencing col_readers[0] == NULL */
+            batch_reader->current_row_group--;
             return status;
         }
     }
